@@ -31,6 +31,11 @@ const SHAPES = {
   spreadAr:{ src: '{...[x, y]}' },
   member:  { src: '{o.p}' },
   lit:     { src: '{"s"}' },
+  // children whose evaluation is observable: nothing of a lazily evaluated default slot may run at creation
+  elementTick: { src: '<b title={tick()} />', ticks: 1 },
+  twoTick:     { src: '{tick()}{y}', ticks: 1 },
+  textTick:    { src: 'a{tick()}', ticks: 1 },
+  nestedTick:  { src: '<div><i>{tick()}</i></div>', ticks: 1 },
 };
 const KINDS = ['vnode', 'string', 'array', 'slotsObj', 'fn'];
 const VSLOTS = {
@@ -68,7 +73,7 @@ function answer(kind, k, names) {
 function makeEnv(c) {
   const names = new Names();
   const comp = (n) => names.reg({ __component: n }, n);
-  const st = { createQueue: [], current: 0, slIdx: 0, mkSlotCalls: 0, answers: null };
+  const st = { createQueue: [], current: 0, slIdx: 0, mkSlotCalls: 0, ticks: 0, answers: null };
   const bound = {
     Comp: comp('Comp'), ns: { Comp: comp('ns.Comp') },
     x: 'xval', y: 'yval', xs: ['xs0', 'xs1'], c: true, o: { p: 'op' },
@@ -76,14 +81,17 @@ function makeEnv(c) {
     vs: { foo: names.reg(() => 'vsfoo', 'vsIdentFoo') },
     vsFoo: names.reg(() => 'foo', 'vsFoo'), vsDefault: names.reg(() => 'vd', 'vsDefault'),
     // during a creation step the prepared answer(s); afterwards (lazy evaluation inside a thunk) the current one
+    tick: () => { st.ticks++; return 'tk'; },
     mkSlot: () => { st.mkSlotCalls++; return st.createQueue.length ? st.createQueue.shift() : st.answers[st.current]; },
   };
   const answers = [answer(c.kind, 1, names), answer(c.kind, 2, names)];
   st.answers = answers;
-  return { bound, names, st, answers, sl0: answers[0], globals: { usl: answers[0] } };
+  // stub for a configured pragma (`hh`): the same observable record as createVNode
+  const hh = (type, props, children) => ({ __v_isVNode: true, type, props: props || null, children: children === undefined ? null : children, dirs: null });
+  return { bound, names, st, answers, sl0: answers[0], globals: { usl: answers[0], hh } };
 }
 
-const PRELUDE = 'const { Comp, ns, x, y, xs, c, o, namedFn, vs, vsFoo, vsDefault, mkSlot } = __env.bound;\nlet sl = __env.sl0;\n__out.setSl = (v) => { [sl] = [v]; };\n';
+const PRELUDE = 'const { Comp, ns, x, y, xs, c, o, namedFn, vs, vsFoo, vsDefault, mkSlot, tick } = __env.bound;\nlet sl = __env.sl0;\n__out.setSl = (v) => { [sl] = [v]; };\n';
 
 function render(c) {
   const tag = HOSTS[c.host];
@@ -93,7 +101,7 @@ function render(c) {
   return (c.host === 'ShadowAlias' ? "import { Fragment as Sh } from 'vue';\n" : '') + PRELUDE + CTX[c.ctx].tpl(J) + '\n';
 }
 
-function optsJson(c) { return JSON.stringify({ enableObjectSlots: c.eos, optimize: c.opt }); }
+function optsJson(c) { return JSON.stringify(Object.assign({ enableObjectSlots: c.eos, optimize: c.opt }, c.pg ? { pragma: 'hh' } : {})); }
 
 function requests(c) { return [{ src: render(c), want: ['eval'], opts: optsJson(c) }]; }
 
@@ -132,6 +140,10 @@ function expectedChildren(c, env, created, lazy) {
     case 'spread': return wrap(b.xs.slice());
     case 'member': return wrap([b.o.p]);
     case 'lit': return wrap(['s']);
+    case 'elementTick': return wrap([{ __expectVNode: { type: 'tag:b', props: { title: 'tk' }, children: null } }]);
+    case 'twoTick': return wrap(['tk', b.y]);
+    case 'textTick': return wrap([{ __expectVNode: { text: 'a' } }, 'tk']);
+    case 'nestedTick': return wrap([{ __expectVNode: { type: 'tag:div', props: null, children: [{ type: 'tag:i', props: null, children: ['tk'] }] } }]);
   }
   throw new Error('shape ' + c.shape);
 }
@@ -181,6 +193,7 @@ function judge(c, resps) {
             const pair = mode === 'pair' ? out.pair() : out.vs;
             vn[0] = pair[0]; vn[1] = pair[1];
             const made = st.mkSlotCalls - before;
+            if (SHAPES[c.shape].ticks && st.ticks !== 0) viol.push({ clause: 'lazy', diff: 'evaluated-at-creation', msg: `content of the default slot was evaluated ${st.ticks} time(s) when the vnodes were created` });
             st.createQueue = []; st.current = 1; st.slIdx = 0;
             createdVal[0] = dynKind === 'call' ? env.answers[0] : env.answers[0];
             createdVal[1] = dynKind === 'call' ? env.answers[1] : env.answers[0];
@@ -191,16 +204,20 @@ function judge(c, resps) {
             globalThis.usl = env.answers[k];
             st.slIdx = k; st.current = k; st.createQueue = [env.answers[k]];
             const before = st.mkSlotCalls;
+            const ticks0 = st.ticks;
             vn[k] = out.mk();
             const made = st.mkSlotCalls - before;
+            if (SHAPES[c.shape].ticks && st.ticks !== ticks0) viol.push({ clause: 'lazy', diff: 'evaluated-at-creation', msg: `content of the default slot was evaluated ${st.ticks - ticks0} time(s) when the vnode was created` });
             st.createQueue = [];
             createdVal[k] = env.answers[k];
             if (dynKind === 'call' && made !== (eagerCall ? 1 : 0)) viol.push({ clause: 'call-once', diff: 'calls-at-create:' + made, msg: `call child evaluated ${made} times at creation` });
           } else {
             const k = +step[1] - 1;
             const before = st.mkSlotCalls;
+            const ticks0 = st.ticks;
             const o = canonValue(vn[k], ctx, []);
             const made = st.mkSlotCalls - before;
+            if (SHAPES[c.shape].ticks && st.ticks - ticks0 !== SHAPES[c.shape].ticks) viol.push({ clause: 'lazy', diff: 'evaluations-per-invocation:' + (st.ticks - ticks0), msg: `content of the default slot was evaluated ${st.ticks - ticks0} time(s) by one invocation of the slot` });
             if (dynKind === 'call' && made !== (eagerCall ? 0 : 1)) viol.push({ clause: 'call-once', diff: 'calls-at-invoke:' + made, msg: `call child evaluated ${made} times when the slot is invoked` });
             const lazy = dynKind === 'call' ? env.answers[st.current] : env.answers[st.slIdx];
             const e = canonValue({ __v_isVNode: true, type: 'x', props: null, children: expectedChildren(c, env, createdVal[k], lazy) }, ctx, []).children;
@@ -219,7 +236,7 @@ function judge(c, resps) {
   // dedupe identical (clause,diff)
   const uniq = new Map();
   for (const v of viol) if (!uniq.has(v.clause + v.diff)) uniq.set(v.clause + v.diff, v);
-  return { viol: [...uniq.values()], obs: stable(obsAll), extraEvals: extra - 1, clauses: ['slots', 'call-once'] };
+  return { viol: [...uniq.values()], obs: stable(obsAll), extraEvals: extra - 1, clauses: ['slots', 'call-once', 'lazy'] };
 }
 
 const DIMS = {
@@ -240,11 +257,16 @@ function spaces(tier) {
     name: 'slots',
     bounds: { hosts: DIMS.host, shapes: DIMS.shape, runtime_kinds: KINDS, vslots: DIMS.vslots, contexts: DIMS.ctx, options: 'enableObjectSlots × optimize', interleavings: { call2: ORDERS_CALL2.map((o) => o.join(',')), pair: ORDERS_PAIR.map((o) => o.join(',')) } },
     *gen() { yield* allCases(); },
+  }, {
+    name: 'P:configured-pragma',
+    bounds: { pragma: 'hh (a createVNode-compatible factory)', contexts: ['arrow', 'fn', 'stmt', 'loop'], vslots: ['none', 'obj'], note: 'the same product under a configured vnode factory: what the children become must not depend on who creates the vnodes' },
+    *gen() { for (const c of allCases()) if (['arrow', 'fn', 'stmt', 'loop'].includes(c.ctx) && ['none', 'obj'].includes(c.vslots)) yield Object.assign({}, c, { pg: true }); },
   }];
 }
 
 function* shrink(c) {
   // each dimension towards its simplest value (first entry), one at a time
+  if (c.pg) yield Object.assign({}, c, { pg: false });
   if (c.ctx !== 'arrow') yield Object.assign({}, c, { ctx: 'arrow' });
   if (c.ctx !== 'arrow' && c.ctx !== 'stmt') yield Object.assign({}, c, { ctx: 'stmt' });
   if (c.host !== 'Comp') yield Object.assign({}, c, { host: 'Comp' });
@@ -258,7 +280,7 @@ function* shrink(c) {
 }
 
 function caseKey(c) {
-  return `${c.ctx}:<${HOSTS[c.host]}${c.vslots === 'none' ? '' : ' v-slots:' + c.vslots}>${c.shape}${SHAPES[c.shape].dyn ? '=' + c.kind : ''}{${c.eos ? 'eos' : '-'}${c.opt ? '+optimize' : ''}}`;
+  return `${c.ctx}:<${HOSTS[c.host]}${c.vslots === 'none' ? '' : ' v-slots:' + c.vslots}>${c.shape}${SHAPES[c.shape].dyn ? '=' + c.kind : ''}{${c.eos ? 'eos' : '-'}${c.opt ? '+optimize' : ''}${c.pg ? '+pragma' : ''}}`;
 }
 
 module.exports = {
@@ -267,5 +289,5 @@ module.exports = {
   rule: 'complete product of component host × child shape × runtime value kind of the child (environment answer) × v-slots form × enableObjectSlots × optimize × enclosing syntactic context; each state is transformed by the real visitor and its output executed; the JSX expression is created twice with different environment answers and the slots of both vnodes are invoked in every explored order of (create1, create2, invoke1, invoke2), each result compared with the reference slots model; call children are counted. Distinct = distinct canonical slot observations.',
   assumptions: ['mock Vue runtime (createVNode, isVNode, resolveComponent)', 'node evaluator', 'reference slots model written from the property statement'],
   spaces, requests, judge, shrink, caseKey,
-  depth: (c) => (c.host !== 'Comp') + (c.shape !== 'none') + (c.kind !== 'vnode') + (c.vslots !== 'none') + (!c.eos) + (c.opt ? 1 : 0) + (c.ctx !== 'arrow'),
+  depth: (c) => (c.host !== 'Comp') + (c.shape !== 'none') + (c.kind !== 'vnode') + (c.vslots !== 'none') + (!c.eos) + (c.opt ? 1 : 0) + (c.ctx !== 'arrow') + (c.pg ? 1 : 0),
 };
